@@ -3,6 +3,9 @@
 package cl
 
 import (
+	"math/big"
+	"unicode"
+
 	"github.com/ohler55/ojg/sen"
 	"github.com/ohler55/slip"
 )
@@ -41,9 +44,89 @@ type Sxhash struct {
 // Call the function with the arguments provided.
 func (f *Sxhash) Call(s *slip.Scope, args slip.List, depth int) (result slip.Object) {
 	slip.CheckArgCount(s, depth, f, args, 1, 1)
-	var h uint64
-	for _, b := range sen.Bytes(slip.SimpleObject(args[0])) {
+
+	return slip.Fixnum(sxhash(args[0]) & 0x7fffffffffffffff)
+}
+
+// sxhash returns the same code for objects that are equal. Numbers are hashed
+// by value since equal ignores the number type, text is hashed with the case
+// folded the same way strings.EqualFold does, and lists and vectors by their
+// elements.
+func sxhash(obj slip.Object) (h uint64) {
+	switch to := obj.(type) {
+	case slip.Number:
+		if r := ratValue(to); r != nil {
+			for _, b := range []byte(r.RatString()) {
+				h += uint64(b)
+			}
+			return
+		}
+	case slip.String:
+		return foldHash(string(to))
+	case slip.Symbol:
+		return foldHash(string(to))
+	case slip.List:
+		for _, v := range to {
+			h += sxhash(v)
+		}
+		return
+	case slip.VectorLike:
+		for _, v := range to.AsList() {
+			h += sxhash(v)
+		}
+		return
+	case slip.Tail:
+		return sxhash(to.Value)
+	}
+	for _, b := range sen.Bytes(slip.SimpleObject(obj)) {
 		h += uint64(0xdf & b) // mask 0x20 to ignore ascii case, for others it doesn't matter
 	}
-	return slip.Fixnum(h & 0x7fffffffffffffff)
+	return
+}
+
+// foldHash sums the characters of a string after replacing each with the
+// lowest character that differs only in case. For ASCII letters that is the
+// same as masking 0x20.
+func foldHash(str string) (h uint64) {
+	for _, r := range str {
+		low := r
+		for f := unicode.SimpleFold(r); f != r; f = unicode.SimpleFold(f) {
+			if f < low {
+				low = f
+			}
+		}
+		if low < 0x80 {
+			low &= 0xdf
+		}
+		h += uint64(low)
+	}
+	return
+}
+
+// ratValue returns the exact value of a number or nil if it is not a finite
+// real.
+func ratValue(num slip.Number) (r *big.Rat) {
+	switch tn := num.(type) {
+	case slip.SingleFloat:
+		r = new(big.Rat).SetFloat64(float64(tn))
+	case slip.DoubleFloat:
+		r = new(big.Rat).SetFloat64(float64(tn))
+	case *slip.LongFloat:
+		r, _ = (*big.Float)(tn).Rat(nil)
+	case *slip.Ratio:
+		r = (*big.Rat)(tn)
+	case *slip.Bignum:
+		r = new(big.Rat).SetInt((*big.Int)(tn))
+	case *slip.SignedByte:
+		r = ratValue(tn.AsFixOrBig().(slip.Number))
+	case *slip.UnsignedByte:
+		r = ratValue(tn.AsFixOrBig().(slip.Number))
+	case slip.Integer:
+		r = new(big.Rat).SetInt64(tn.Int64())
+	case slip.Complex:
+		if imag(complex128(tn)) == 0.0 {
+			r = new(big.Rat).SetFloat64(real(complex128(tn)))
+		}
+	}
+	return
 }
